@@ -16,6 +16,7 @@ func propC18(c *Ctx) propInfo {
 	c.prunedCellLayout()
 	c.proofRootLayout()
 	c.maskPropagation()
+	c.keptCellType()
 	c.proveKeyRules()
 	c.proveWalkArithmetic()
 	c.cursorFreshness()
@@ -351,6 +352,26 @@ func (c *Ctx) proveKeyRules() {
 			fork = ifi
 		}
 	}
+	if fork == nil {
+		// the fork step in an unexported helper that is handed the key bit (descend(cell, cursor, isRight)): the
+		// fork is the helper's test of that parameter
+		for _, site := range callsIn(entry) {
+			h := plainHelper(site.Common().StaticCallee())
+			if h == nil || h == entry {
+				continue
+			}
+			for i, a := range site.Common().Args {
+				if i >= len(h.Params) || !isWireRead(a) {
+					continue
+				}
+				for _, b := range h.Blocks {
+					if ifi := lastIf(b); ifi != nil && ifi.Cond == ssa.Value(h.Params[i]) {
+						f, fork = h, ifi
+					}
+				}
+			}
+		}
+	}
 	if fork != nil {
 		// which side of the fork a block lies on: behind the true (right) edge, the false (left) edge, or neither
 		// (the key bit may be tested more than once: every test of the same value is the fork)
@@ -632,4 +653,36 @@ func (c *Ctx) hostOf(f *ssa.Function, q string) (*ssa.Function, *ssa.Call) {
 		}
 	}
 	return f, nil
+}
+
+// keptCellType: a node the pruner keeps is rebuilt with the node's own cell type. A library cell or an already
+// pruned branch in the kept part of the tree that comes out as an ordinary cell hashes differently, and the
+// proof no longer matches the root hash it states. Rule: in pruneCells (or the unexported helper that builds the
+// copy) some store to a Cell's cellType takes its value from the immutable cell's own cellType.
+func (c *Ctx) keptCellType() {
+	const R = "E10.mask-propagation"
+	f := c.mustFn(R, "boc", "immutableCell.pruneCells")
+	if f == nil {
+		return
+	}
+	okv := false
+	c.allInstrsDeep(f, func(_ *ssa.BasicBlock, in ssa.Instruction) {
+		st, ok := in.(*ssa.Store)
+		if !ok {
+			return
+		}
+		if of, ok := ownerField(st.Addr); ok && of == "boc.Cell.cellType" {
+			if derivesFrom(st.Val, func(v ssa.Value) bool {
+				u, ok := v.(*ssa.UnOp)
+				if !ok || u.Op != token.MUL {
+					return false
+				}
+				of2, ok := ownerField(u.X)
+				return ok && of2 == "boc.immutableCell.cellType"
+			}, false) {
+				okv = true
+			}
+		}
+	})
+	c.check(okv, R, "a kept node keeps its cell type", f.Pos(), "Cell.cellType of the copy = the immutable cell's cellType", "pruneCells no longer gives the copy of a kept node the node's own cell type: an exotic cell (library cell, earlier pruned branch) in the kept part of the tree becomes an ordinary cell, its hash changes and the proof does not verify against the root hash it carries")
 }
